@@ -67,14 +67,15 @@ def closeWaits (l : List Ev) : Bool :=
   !l.contains closeOk ||
     (accs l).all fun t => (dones (preClose l)).contains t || (cancels (preClose l)).contains t
 
-/-- a mailbox shard never has two handler batches open at the same time -/
-def singleDrainGo : List Nat → List Ev → Bool
-  | _, [] => true
-  | act, .bbeg s :: r => !act.contains s && singleDrainGo (s :: act) r
-  | act, .bend s :: r => singleDrainGo (act.erase s) r
-  | act, _ :: r => singleDrainGo act r
+/-- open handler batches per shard while scanning a log; `none` = a shard had two open at once -/
+def drainState : List Nat → List Ev → Option (List Nat)
+  | act, [] => some act
+  | act, .bbeg s :: r => if act.contains s then none else drainState (s :: act) r
+  | act, .bend s :: r => drainState (act.erase s) r
+  | act, _ :: r => drainState act r
 
-def singleDrain (l : List Ev) : Bool := singleDrainGo [] l
+/-- a mailbox shard never has two handler batches open at the same time -/
+def singleDrain (l : List Ev) : Bool := (drainState [] l).isSome
 
 /-! ### positions (driver-side helpers; arrays indexed by task id) -/
 
